@@ -478,6 +478,11 @@ class Lowerer:
         else:
             rts = self._ret_type_str(node)
             rt = self.ptype(rts)
+            if not self._type_known(rt):
+                rt2 = self._ret_type_from_body(node)
+                if rt2 is None:
+                    raise Unsupported('return type %s of %s cannot be resolved' % (rts, qual))
+                rt = rt2
             f.ret_is_ref = rt[0] == 'ref'
             f.ret = self.lowered(rt)
         loc = node.get('loc', {})
@@ -508,6 +513,28 @@ class Lowerer:
         finally:
             self.cur, self._tmpn, self.locals, self.used = saved
         return f
+
+    def _type_known(self, t):
+        k = t[0]
+        if k == 'rec':
+            return t[1] in self.records
+        if k in ('ref', 'ptr', 'opt', 'sarr', 'vec'):
+            return self._type_known(t[1])
+        return True
+
+    def _ret_type_from_body(self, node):
+        for x in self.ast.walk(node):
+            if x.get('kind') == 'ReturnStmt':
+                for c in kids(x):
+                    ty = c.get('type') or {}
+                    if 'desugaredQualType' in ty:
+                        try:
+                            t = self.ptype(ty['desugaredQualType'])
+                        except Unsupported:
+                            continue
+                        if self._type_known(t):
+                            return t
+        return None
 
     def _ret_type_str(self, node):
         # function type "R (params) quals": take everything before the top-level '('
